@@ -36,6 +36,13 @@ Semantics of the translation
   `if` on the index, `b @ M` becomes `gsum`, the guards become `<Class>.rejects (npoints : Int) : Bool`,
   the lengths `<Class>.pointsLen/weightsLen`, the domain `<Class>.lo/hi`.
 
+* round 3: ClenshawCurtis / FejerFirst / FejerSecond go through the same entry-wise translation as well
+  (the whole constructor: `theta`, the reversal, `jmed` / `nsum` as `Nat` definitions `<Class>.<name><k> (n : Nat) : Nat`,
+  the coefficient vector with its `if ...: bj[idx] = c` patch, `bj /= ...`, the `np.outer` matrix, `bj @ cij`, the
+  post-processing of the weights, guards, lengths, domain).  The integer skeleton above is kept (the exactness
+  theorems are stated over it); `Props/C01/CtorSeries.lean` proves that the entry-wise text and the list model
+  assembled from the skeleton are the same rule.
+
 Anything outside this vocabulary raises `Untranslatable` (reported by the runner as a broken
 obligation)."""
 import ast
@@ -471,6 +478,12 @@ class Sc:
         self.term = term
 
 
+class It:
+    """integer scalar (a Lean `Nat` term); used as a length / index, or cast to K inside an array expression"""
+    def __init__(self, term):
+        self.term = term
+
+
 class Ar:
     """1-D array: `length` is a Lean Nat term, `at(idx)` the Lean K term of entry `idx` (a Lean Nat term)"""
     def __init__(self, length, at):
@@ -516,7 +529,8 @@ class ArrayExpr:
         if isinstance(e, ast.Name):
             if e.id not in self.env:
                 raise Untranslatable(f"unknown name {e.id!r} (line {e.lineno})")
-            return self.env[e.id]
+            v = self.env[e.id]
+            return Sc(f"(({v.term} : Nat) : K)") if isinstance(v, It) else v
         if is_np(e, "pi"):
             return Sc("Elem.pi")
         if isinstance(e, ast.UnaryOp) and isinstance(e.op, ast.USub):
@@ -606,15 +620,31 @@ def closed_rule(tree, src, cls):
         k = version.get(name, -1) + 1
         version[name] = k
         dn = f"{cls}.{name}{k}"
+        if isinstance(val, It):
+            defs.append((dn, "(n : Nat)", val.term, comment, "Nat"))
+            env[name] = It(f"({dn} n)")
+            nenv[name] = f"({dn} n)"
+            return
+        nenv.pop(name, None)
         if isinstance(val, Ar):
-            defs.append((dn, "(n i : Nat)", val.at("i"), comment))
+            defs.append((dn, "(n i : Nat)", val.at("i"), comment, "K"))
             env[name] = Ar(val.length, lambda i, dn=dn: f"({dn} n {i})")
         elif isinstance(val, Mt):
-            defs.append((dn, "(n j i : Nat)", val.at("j", "i"), comment))
+            defs.append((dn, "(n j i : Nat)", val.at("j", "i"), comment, "K"))
             env[name] = Mt(val.rows, val.cols, lambda j, i, dn=dn: f"({dn} n {j} {i})")
         else:
-            defs.append((dn, "(n : Nat)", val.term, comment))
+            defs.append((dn, "(n : Nat)", val.term, comment, "K"))
             env[name] = Sc(f"({dn} n)")
+
+    def int_cond(test):
+        """`<int expr> == <int expr>` (also < <= > >= !=) over npoints / integer names -> Lean Prop on Nat"""
+        if not (isinstance(test, ast.Compare) and len(test.ops) == 1):
+            raise Untranslatable(f"{cls}: condition at line {test.lineno}")
+        rel = {ast.LtE: "≤", ast.Lt: "<", ast.Eq: "=", ast.Gt: ">", ast.GtE: "≥", ast.NotEq: "≠"}.get(type(test.ops[0]))
+        if rel is None:
+            raise Untranslatable(f"{cls}: relation at line {test.lineno}")
+        ne = NExpr(nenv)
+        return f"{ne.tr(test.left)} {rel} {ne.tr(test.comparators[0])}"
 
     for st in f.body:
         if _is_docstring(st):
@@ -636,6 +666,22 @@ def closed_rule(tree, src, cls):
             final = (a[0].id, a[1].id, lo_t, hi_t)
             continue
         ex = ArrayExpr(src, env, nenv)
+        if isinstance(st, ast.If):
+            # if <integer condition>: a[idx] = <scalar>
+            if (st.orelse or len(st.body) != 1 or not isinstance(st.body[0], ast.Assign) or len(st.body[0].targets) != 1
+                    or not isinstance(st.body[0].targets[0], ast.Subscript)):
+                raise Untranslatable(f"{cls}: conditional at line {st.lineno}")
+            t = st.body[0].targets[0]
+            if not (isinstance(t.value, ast.Name) and isinstance(env.get(t.value.id), Ar)) or isinstance(t.slice, ast.Slice):
+                raise Untranslatable(f"{cls}: conditional assignment target at line {st.lineno}")
+            cur = env[t.value.id]
+            c = ex.tr(st.body[0].value)
+            if not isinstance(c, Sc):
+                raise Untranslatable(f"{cls}: conditional assignment of a non-scalar (line {st.lineno})")
+            cond, idx = int_cond(st.test), ex.nat(t.slice)
+            bind(t.value.id, Ar(cur.length, lambda i, cur=cur, c=c, cond=cond, idx=idx:
+                                f"(if ({cond}) ∧ {i} = {idx} then {c.term} else {cur.at(i)})"), U(st).replace("\n", " "))
+            continue
         if isinstance(st, ast.AugAssign):
             ops = {ast.Mult: "*", ast.Div: "/", ast.Add: "+", ast.Sub: "-"}
             if type(st.op) not in ops:
@@ -670,7 +716,11 @@ def closed_rule(tree, src, cls):
         name = _single_target(st)
         if name is None:
             raise Untranslatable(f"{cls}: statement at line {st.lineno}")
-        bind(name, ex.tr(st.value), U(st))
+        try:
+            val = It(NExpr(nenv).tr(st.value))   # an integer scalar (jmed = (npoints - 1) // 2)
+        except Untranslatable:
+            val = ex.tr(st.value)
+        bind(name, val, U(st))
     if final is None:
         raise Untranslatable(f"{cls}: super().__init__ not found")
     pn, wn, lo_t, hi_t = final
@@ -724,12 +774,12 @@ def lean_text(path=None) -> str:
         if r["patch"]:
             P.append(f"/-- `{cls}`: value written by `if ...: bj[...] = c`. -/")
             P.append(f"def {cls}.patchVal : K := {r['patch']['val']}\n")
-    closed = [closed_rule(tree, src, cls) for cls in CLOSED]
+    closed = [closed_rule(tree, src, cls) for cls in CLOSED + SERIES]
     for r in closed:
         cls = r["cls"]
-        for dn, params, term, comment in r["defs"]:
+        for dn, params, term, comment, ty in r["defs"]:
             P.append(f"/-- `{cls}`: `{comment}` -/")
-            P.append(f"def {dn} {params} : K :=\n  {term}\n")
+            P.append(f"def {dn} {params} : {ty} :=\n  {term}\n")
         P.append(f"/-- `{cls}`: entry `i` of the `points` / `weights` handed to `OneDGrid.__init__`, and the declared domain. -/")
         P.append(f"def {cls}.pointAt (n i : Nat) : K := {r['pointAt']}")
         P.append(f"def {cls}.weightAt (n i : Nat) : K := {r['weightAt']}")
